@@ -44,6 +44,7 @@ class FnSpec:
         self.bodysub = []         # [(regex, repl)] applied to the body only (documented per unit)
         self.opens = False
         self.props = []           # properties this function's contract serves (empty = all of the unit's)
+        self.inherent = False     # emit a trait-impl method as an inherent method (Verus forbids `requires` on Drop::drop)
         self.lift_nested = False  # R13: nested `fn` items are removed from the body (they are extracted as top-level items)
 
 
@@ -152,7 +153,7 @@ class Unit:
             elif d == "end":
                 pass
             elif d == "fn":
-                mm = re.match(r"(\S+)(?:\s*->\s*(\w+))?", arg)
+                mm = re.match(r"(<[^>]+>::\w+|\S+)(?:\s*->\s*(\w+))?", arg)
                 curfn = FnSpec(mm.group(1))
                 curfn.ret = mm.group(2)
                 curfn.props = list(self._defprops)
@@ -178,6 +179,8 @@ class Unit:
                 curfn.external_body = True
             elif d == "lift-nested":
                 curfn.lift_nested = True
+            elif d == "inherent":
+                curfn.inherent = True
             elif d == "sigsub" or d == "bodysub":
                 mm = re.match(r"/(.*)/\s*=>\s*(.*)$", arg)
                 (curfn.sigsub if d == "sigsub" else curfn.bodysub).append((mm.group(1), mm.group(2)))
@@ -862,7 +865,7 @@ def build(unit, repo_root, source_map=None):
         else:
             selected = []
             for s in itemspecs:
-                if s.startswith("fn ") and s.count("::") == 1:
+                if s.startswith("fn ") and (s.count("::") == 1 or s.startswith("fn <")):
                     # a method cut out of (possibly generic) impl block: re-wrapped in `impl <Type> { .. }`
                     f, imp = src.find_fn(s[3:])
                     selected.append(("method", s[3:], f))
@@ -872,10 +875,18 @@ def build(unit, repo_root, source_map=None):
             if isinstance(it, tuple):
                 _, q, f = it
                 ty = q.split("::")[0]
+                mt = re.match(r"<(\w+) as ([\w<>]+)>", q)
                 spec = unit.fns.get(q)
+                if mt and spec is not None and spec.inherent:
+                    ty = mt.group(1)
+                    mt = None
+                elif mt:
+                    ty = "%s for %s" % (mt.group(2), mt.group(1))   # `impl Trait for Type { .. }`
                 if spec:
                     used.add(q)
-                txt = r_pub_item(generic_rewrites(src.item_text(f)))
+                txt = generic_rewrites(src.item_text(f))
+                if not mt:
+                    txt = r_pub_item(txt)
                 txt, lost = splice_fn(txt, spec)
                 for a in lost:
                     em.lost_anchors.append((q, a))
@@ -950,7 +961,7 @@ def build(unit, repo_root, source_map=None):
     lines = text.split("\n")
     cur = None
     for ln, l in enumerate(lines, 1):
-        m = re.match(r"// @fn (\S+) @src (\S+):(\d+)", l)
+        m = re.match(r"// @fn (.+?) @src (\S+):(\d+)", l)
         if m:
             if cur:
                 cur[2] = ln - 1
